@@ -31,6 +31,7 @@ RULE = ("one run = (platform {Ledger, SGX}, command {onboard, unlock, changepin,
         "other-then-yes / other-then-no / 3..5 non-answers then no or EOF, --nounlock, "
         "--noexec}); enumerated: the full product of the enum dimensions; seeded: PIN strings and "
         "entropy; non-trivial = at least one APDU reached the device; distinct = the scenario tuple")
+MUTANT_WALL = 150
 TIERS = {"quick": {"runs": 20000, "wall": 240}, "thorough": {"runs": 400000, "wall": 3000}}
 EXHAUSTIVE = {"quick": True, "thorough": True}
 COMPONENTS = {
@@ -88,6 +89,12 @@ def run_one(ch, cfg):
     devpin = b"Dev1cePin"[:8]
     seed = ch.bytes(6, "devseed")
     log, clock = EventLog(), Clock()
+    # device fault (seeded runs only, after the enumerated dimensions): the onboarded query itself
+    # fails with an error status; nothing can then be concluded about the device, so nothing that
+    # presupposes "not onboarded" / "onboarded" may be sent (carrying out is not demanded either)
+    onb_err = None
+    if ch.draw(8, "onboarded-query-fails") == 1:
+        onb_err = ch.pick([0x6E00, 0x6F01, 0x6985, 0x6A99, 0x6D00], "onboarded-query.status")
     if platform == "sgx" and mode in ("ui-heartbeat", "foreign"):
         mode = "signer"
     if platform == "ledger":
@@ -96,12 +103,16 @@ def run_one(ch, cfg):
                 "onboarded": onboarded, "pin": devpin, "echo_bad": not echo_ok, "endorsed": onboarded,
                 "post_exit_ui": {"mode": L.MODE_SIGNER, "delay": 0.5, "silence": "read_err"},
                 "post_exit_ui_nosig": {"mode": MODE_DASHBOARD, "delay": 0.5, "silence": "read_err"}}
+        if onb_err:
+            dcfg["onboard_error"] = onb_err
         dev = AdminLedgerDevice(ch, clock, log, seed=seed, cfg=dcfg)
         main, prog = adm_ledger.main, "adm_ledger.py"
         pinflag = "-p"
     else:
         dcfg = {"onboarded": onboarded, "pin": devpin, "echo_bad": not echo_ok,
                 "locked": mode == "bootloader"}
+        if onb_err:
+            dcfg["onboard_error"] = onb_err
         dev = SgxAdminDevice(ch, clock, log, seed=seed, cfg=dcfg)
         main, prog = adm_sgx.main, "adm_sgx.py"
         pinflag = "-P"
@@ -220,6 +231,9 @@ def run_one(ch, cfg):
             viol.append(("pin/policy", desc + " sent %s PIN %r" % (kind, p)))
     # ---- V5: when the preconditions hold the operation is carried out
     good_pin = pin is not None and pin_policy_ok(pin.encode())
+    if onb_err:
+        good_pin = False
+        pinkind = pinkind if pinkind != "valid" else "valid-but-undeterminable"
     if command == "onboard" and pre and good_pin:
         if not dev.onboarded or dev.pin != pin.encode():
             viol.append(("onboard/not-carried-out", desc))
